@@ -6,6 +6,7 @@ import (
 	"io"
 	"math"
 	"testing"
+	"time"
 
 	bip39 "github.com/islishude/bip39"
 	"pgregory.net/rapid"
@@ -41,9 +42,22 @@ type countingReader struct {
 	// eofWithData: report io.EOF in the same call that delivers the bytes (allowed by io.Reader;
 	// iotest.DataErrReader behaves like this): still a working source, everything asked is delivered
 	eofWithData bool
+	// delay: the first Read takes this long (a slow but working source)
+	delay time.Duration
+}
+
+// panickingReader panics inside Read (a faulty driver or plug-in source; callers such as
+// net/http recover per request).
+type panickingReader struct{}
+
+func (panickingReader) Read([]byte) (int, error) {
+	panic("verif: injected panic inside the randomness source")
 }
 
 func (r *countingReader) Read(p []byte) (int, error) {
+	if r.calls == 0 && r.delay > 0 {
+		time.Sleep(r.delay)
+	}
 	r.calls++
 	for i := range p {
 		p[i] = byte(0x31 + r.bytes + i)
@@ -106,9 +120,37 @@ var c09Check = register("C09", "c09.size", func(c *sizeCase) error {
 			implValid("abandon abandon abandon abandon abandon abandon abandon abandon abandon abandon abandon about", bip39.English)
 			implCheck("zoo zoo zoo zoo zoo zoo zoo zoo zoo zoo zoo wrong", bip39.English)
 		}
+		if c.Extra&8 != 0 {
+			// an earlier call whose source panicked inside Read (recovered by the caller, as a server
+			// does per request): the size gate and a later working source must be unaffected
+			prevP := bip39.VerifSwapRandSource(panickingReader{})
+			implNew(12+3*int(c.N&3), lang)
+			bip39.VerifSwapRandSource(prevP)
+		}
 		src := &countingReader{eofWithData: c.Extra%2 == 1}
+		if c.Extra&16 != 0 {
+			src.delay = time.Duration(c.Len) * time.Second // slow but working
+		}
 		prev := bip39.VerifSwapRandSource(src)
-		got, err, p := implNew(n, lang)
+		type res struct {
+			s   string
+			err error
+			p   error
+		}
+		done := make(chan res, 1)
+		go func() {
+			s, e, pp := implNew(n, lang)
+			done <- res{s, e, pp}
+		}()
+		var got string
+		var err, p error
+		select {
+		case r := <-done:
+			got, err, p = r.s, r.err, r.p
+		case <-time.After(time.Duration(c.Len)*time.Second + 90*time.Second):
+			bip39.VerifSwapRandSource(prev)
+			return failf(sig+" blocked", "NewMnemonic(%d, Language(%d)) with a working source did not return within %d s (after an earlier call whose source panicked: %v)", n, c.Lang, c.Len+90, c.Extra&8 != 0)
+		}
 		bip39.VerifSwapRandSource(prev)
 		if p != nil {
 			return failf(sig+" panic", "NewMnemonic(%d, Language(%d)) panicked: %v", n, c.Lang, p)
@@ -137,7 +179,7 @@ var c09Check = register("C09", "c09.size", func(c *sizeCase) error {
 	return nil
 })
 
-const c09Rule = "C09: NewMnemonicByEntropy on nil and on every slice length of a contiguous range from 0 (content patterns, spare capacity) and a few huge lengths, on text-like contents (hex in both cases, decimal, base64, one repeated character) of every length 0..130 under all ten languages, on the entropies of every language's longest and shortest sentences; NewMnemonic on every int of a contiguous range around zero, multiples of 3 outside 12..24, the extremes of int, rapid Int draws \u2014 each under supported and unsupported languages, under a counting source installed through the verif hook. Oracle: success iff the size is one of the five, otherwise (\"\", sentinel) and zero Read calls. Non-trivial: a size other than the six lengths / six counts the suite samples (1,16,17,33 bytes; 1,12,13,25 words); distinct by (op, size, language)"
+const c09Rule = "C09: NewMnemonicByEntropy on nil and on every slice length of a contiguous range from 0 (content patterns, spare capacity) and a few huge lengths, on text-like contents (hex in both cases, decimal, base64, one repeated character) of every length 0..130 under all ten languages, on the entropies of every language's longest and shortest sentences; NewMnemonic on every int of a contiguous range around zero, multiples of 3 outside 12..24, the extremes of int, rapid Int draws \u2014 each under supported and unsupported languages, under a counting source installed through the verif hook, also right after a call whose source panicked inside Read, and under a slow but working source (first Read after 12 s; thorough also 35 s, 65 s). Oracle: success iff the size is one of the five, otherwise (\"\", sentinel) and zero Read calls. Non-trivial: a size other than the six lengths / six counts the suite samples (1,16,17,33 bytes; 1,12,13,25 words); distinct by (op, size, language)"
 
 func c09Record(c *sizeCase) {
 	cov.Eval(1)
@@ -252,6 +294,15 @@ func TestC09_Range(t *testing.T) {
 				run(&sizeCase{Op: "count", N: v*3 + m<<k, Lang: int64(bip39.Japanese)})
 			}
 		}
+	}
+	// after a call whose source panicked; and under a slow but working source
+	for _, l := range c09Langs[:3] {
+		for _, n := range []int64{12, 15, 18, 21, 24, 13, 0} {
+			run(&sizeCase{Op: "count", N: n, Lang: l, Extra: 8})
+		}
+	}
+	for i, sec := range []int{12, 35, 65}[:pick(1, 3)] {
+		run(&sizeCase{Op: "count", N: int64(ref.Counts[i]), Lang: c09Langs[i], Extra: 16, Len: sec})
 	}
 	for k := int64(-30); k <= 3000; k++ {
 		run(&sizeCase{Op: "count", N: 3 * k, Lang: int64(bip39.Korean)})
